@@ -113,6 +113,8 @@ struct inst {
 	char **argv;
 	uint64_t rng;
 	uint64_t rng0;		/* the driver's seed for this instance */
+	int forced[8];		/* values the next rand() calls return (forcerand) */
+	int forced_n;
 	/* select hand-over */
 	int wake_n;
 	int wake_fds[8];
@@ -321,6 +323,12 @@ int __wrap_rand(void)
 	if (cur < 0)
 		return __real_rand();
 	me = &insts[cur];
+	if (me->forced_n > 0) {
+		/* the driver chose the next values (boundary challenges: 0, RAND_MAX, ...) */
+		int v = me->forced[0];
+		memmove(me->forced, me->forced + 1, (size_t) --me->forced_n * sizeof(int));
+		return v;
+	}
 	me->rng = me->rng * 6364136223846793005ULL + 1442695040888963407ULL;
 	return (int)((me->rng >> 33) & 0x7fffffff);
 }
@@ -953,6 +961,11 @@ int main(int argc, char **argv)
 			free(b);
 		} else if (!strcmp(tok[0], "unenv") && nt == 2) {
 			unsetenv(tok[1]);
+		} else if (!strcmp(tok[0], "forcerand") && nt >= 3) {
+			int k = find_inst(tok[1]), i;
+			if (k >= 0)
+				for (i = 2; i < nt && insts[k].forced_n < 8; i++)
+					insts[k].forced[insts[k].forced_n++] = (int) strtol(tok[i], NULL, 0);
 		} else if (!strcmp(tok[0], "dumpin") && nt == 2) {
 			dump_indata = atoi(tok[1]);
 		} else if (!strcmp(tok[0], "hostprofile") && nt == 2) {
